@@ -74,6 +74,10 @@ type StepDesc struct {
 	Proof  *ProofSpec  `json:"proof,omitempty"`
 	Height uint64      `json:"height,omitempty"`
 	Rules  []string    `json:"rules,omitempty"`
+	Args   []string    `json:"args,omitempty"`
+	Sent   []Pkt       `json:"sent,omitempty"`        // packets announced by send_packet events (real data)
+	AckWritten string  `json:"ack_written,omitempty"` // real bytes of the acknowledgement written by this step
+	Ledger any         `json:"ledger,omitempty"`
 	OK     bool        `json:"ok"`
 	Err    string      `json:"err,omitempty"`
 	Events []string    `json:"events,omitempty"`
@@ -90,6 +94,76 @@ type NetH struct {
 	Descs  []StepDesc
 	// per chain: heights for which a client update recorded a header, per observer
 	known map[[2]int][]uint64 // (observer i, about j) -> heights
+	// application mode (appnet_test.go): translation of packet data / acks into
+	// the model's encoding, ledger dumps, and ANet wrapping of network operations
+	dataFn   func(port, data string) string
+	ackFn    func(ack string) string
+	ledgerFn func(i int) (string, any)
+	app      bool
+	// C19: digest of the protocol and token stores of the acted chain before the step
+	preDigest string
+	preLedger any
+	Fails     []OracleFailure // failures detected while recording (C19)
+}
+
+// stores whose content a failing message must leave untouched
+var protectedStores = []string{"tibc", "nft", "mt", "NFT", "MT"}
+
+func (h *NetH) digest(i int) string {
+	c := h.chains[i]
+	ctx := c.GetContext()
+	hsh := sha256.New()
+	for _, name := range protectedStores {
+		key := c.App.GetKey(name)
+		if key == nil {
+			continue
+		}
+		it := ctx.KVStore(key).Iterator(nil, nil)
+		for ; it.Valid(); it.Next() {
+			hsh.Write([]byte(name))
+			hsh.Write(it.Key())
+			hsh.Write([]byte{0})
+			hsh.Write(it.Value())
+			hsh.Write([]byte{1})
+		}
+		it.Close()
+	}
+	return hex.EncodeToString(hsh.Sum(nil))
+}
+
+// begin is called at the start of every operation on chain i
+func (h *NetH) begin(i int) {
+	h.preDigest = h.digest(i)
+	if h.app {
+		_, h.preLedger = h.ledgerFn(i)
+	}
+}
+
+func (h *NetH) mdata(port, data string) string {
+	if h.dataFn != nil {
+		return h.dataFn(port, data)
+	}
+	return data
+}
+func (h *NetH) mack(ack string) string {
+	if ack == string(unauthAckBytes) {
+		return "error:unauthorized"
+	}
+	if h.ackFn != nil {
+		return h.ackFn(ack)
+	}
+	return ack
+}
+func (h *NetH) pcoq(p Pkt) string {
+	q := p
+	q.Data = h.mdata(p.Port, p.Data)
+	return q.coq()
+}
+func (h *NetH) wrap(nop string) string {
+	if h.app && !strings.HasPrefix(nop, "AUser") {
+		return "ANet (" + nop + ")"
+	}
+	return nop
 }
 
 var unauthAckBytes = packettypes.NewErrorAcknowledgement("unauthorized").GetBytes()
@@ -160,9 +234,11 @@ func coqDump(d [][2]string) string {
 	return coqList(items)
 }
 
-// events -> (Coq terms, printable strings)
-func (h *NetH) events(evs []abci.Event) ([]string, []string) {
+// events -> (Coq terms, printable strings, packets sent (real data), real ack written)
+func (h *NetH) events(evs []abci.Event) ([]string, []string, []Pkt, string) {
 	var terms, strs []string
+	var sent []Pkt
+	ackW := ""
 	for _, e := range evs {
 		attr := map[string]string{}
 		for _, a := range e.Attributes {
@@ -172,20 +248,22 @@ func (h *NetH) events(evs []abci.Event) ([]string, []string) {
 		p := Pkt{seq, attr[packettypes.AttributeKeySrcChain], attr[packettypes.AttributeKeyDstChain],
 			attr[packettypes.AttributeKeyRelayChain], attr[packettypes.AttributeKeyPort], attr[packettypes.AttributeKeyData]}
 		cp := CPkt{seq, p.Src, p.Dst, p.Relay}
-		ack := attr[packettypes.AttributeKeyAck]
-		if ack == string(unauthAckBytes) {
-			ack = "error:unauthorized"
-		}
+		realAck := attr[packettypes.AttributeKeyAck]
+		ack := h.mack(realAck)
 		var term string
 		switch e.Type {
 		case packettypes.EventTypeSendPacket:
-			term = "VSend " + p.coq()
+			term = "VSend " + h.pcoq(p)
+			sent = append(sent, p)
+			h.learn(p.Data, h.mdata(p.Port, p.Data))
 		case packettypes.EventTypeRecvPacket:
-			term = "VRecv " + p.coq()
+			term = "VRecv " + h.pcoq(p)
 		case packettypes.EventTypeWriteAck:
-			term = "VWriteAck " + p.coq() + " " + hxS(ack)
+			term = "VWriteAck " + h.pcoq(p) + " " + hxS(ack)
+			ackW = realAck
+			h.learn(realAck, ack)
 		case packettypes.EventTypeAcknowledgePacket:
-			term = "VAck " + p.coq() + " " + hxS(ack)
+			term = "VAck " + h.pcoq(p) + " " + hxS(ack)
 		case packettypes.EventTypeSendCleanPacket:
 			term = "VCleanSend " + cp.coq()
 		case packettypes.EventTypeRecvCleanPacket:
@@ -196,18 +274,30 @@ func (h *NetH) events(evs []abci.Event) ([]string, []string) {
 		terms = append(terms, term)
 		strs = append(strs, fmt.Sprintf("%s %s->%s#%d", e.Type, p.Src, p.Dst, seq))
 	}
-	return terms, strs
+	return terms, strs, sent, ackW
 }
 
 func (h *NetH) record(nop string, i int, d StepDesc, ok bool, evs []abci.Event) {
 	var terms, strs []string
 	if ok {
-		terms, strs = h.events(evs)
+		terms, strs, d.Sent, d.AckWritten = h.events(evs)
 	}
 	dump := h.dump(i)
 	d.OK, d.Events, d.Dump, d.Chain = ok, strs, dump, i
+	if !ok && h.preDigest != "" && h.digest(i) != h.preDigest {
+		dd := d
+		dd.Dump = nil
+		h.Fails = append(h.Fails, OracleFailure{"C19:failed-message-changed-state",
+			"a message that returned an error changed the protocol or token stores", map[string]any{"step_index": len(h.Descs), "step": dd}})
+	}
+	obs := fmt.Sprintf("mkObs %s %s %s", coqBool(ok), coqList(terms), coqDump(dump))
+	if h.app {
+		lt, l := h.ledgerFn(i)
+		d.Ledger = l
+		obs = fmt.Sprintf("mkAObs %s %s %s %s", coqBool(ok), coqList(terms), coqDump(dump), lt)
+	}
 	h.Descs = append(h.Descs, d)
-	h.steps = append(h.steps, fmt.Sprintf("(%s, mkObs %s %s %s)", nop, coqBool(ok), coqList(terms), coqDump(dump)))
+	h.steps = append(h.steps, fmt.Sprintf("(%s, %s)", h.wrap(nop), obs))
 }
 
 // commit a block on chain i and advance global time, like SendMsgs does
@@ -220,6 +310,7 @@ func (h *NetH) Tick(d time.Duration) { h.coord.IncrementTimeBy(d) }
 
 // CreateClient on chain i about chain j (keeper path, as Endpoint.CreateClient does)
 func (h *NetH) CreateClient(i, j int) {
+	h.preDigest = ""
 	ci, cj := h.chains[i], h.chains[j]
 	cj.NextBlock()
 	h.coord.UpdateTimeForChain(ci)
@@ -247,6 +338,7 @@ func (h *NetH) CreateClient(i, j int) {
 
 // UpdateClient on chain i about chain j with j's latest header (MsgUpdateClient)
 func (h *NetH) UpdateClient(i, j int) bool {
+	h.preDigest = ""
 	ci, cj := h.chains[i], h.chains[j]
 	h.coord.CommitBlock(cj)
 	now := h.now()
@@ -274,10 +366,11 @@ func (h *NetH) UpdateClient(i, j int) bool {
 
 // Send: raw SendPacket by an application module (keeper path), atomically
 func (h *NetH) Send(i int, p Pkt) bool {
+	h.begin(i)
 	ci := h.chains[i]
 	h.coord.UpdateTimeForChain(ci)
 	now := h.now()
-	h.learn(p.Data, "")
+	h.learn(p.Data, h.mdata(p.Port, p.Data))
 	ctx, write := ci.GetContext().CacheContext()
 	ctx = ctx.WithEventManager(sdk.NewEventManager())
 	err := ci.App.TIBCKeeper.PacketKeeper.SendPacket(ctx, p.real())
@@ -291,7 +384,7 @@ func (h *NetH) Send(i int, p Pkt) bool {
 	if err != nil {
 		d.Err = err.Error()
 	}
-	h.record(fmt.Sprintf("NChain %d %d (OSend %s)", i, now, p.coq()), i, d, err == nil, evs)
+	h.record(fmt.Sprintf("NChain %d %d (OSend %s)", i, now, h.pcoq(p)), i, d, err == nil, evs)
 	return err == nil
 }
 
@@ -340,34 +433,40 @@ func (h *NetH) deliver(i int, msg sdk.Msg) (bool, []abci.Event, string) {
 }
 
 func (h *NetH) Recv(i int, p Pkt, ps ProofSpec, height uint64) bool {
+	h.begin(i)
 	ci := h.chains[i]
 	now := h.now()
 	bz, pterm := h.proof(ps, height)
 	msg := packettypes.NewMsgRecvPacket(p.real(), bz, clienttypes.NewHeight(0, height), ci.SenderAccount.GetAddress())
 	ok, evs, e := h.deliver(i, msg)
 	h.learn("mock acknowledgement", "")
-	h.record(fmt.Sprintf("NChain %d %d (ORecv %s %s %d)", i, now, p.coq(), pterm, height), i,
+	h.record(fmt.Sprintf("NChain %d %d (ORecv %s %s %d)", i, now, h.pcoq(p), pterm, height), i,
 		StepDesc{Op: "recv", Pkt: &p, Proof: &ps, Height: height, Err: e}, ok, evs)
 	return ok
 }
 
+// Ack: ack is the REAL acknowledgement bytes ("error:unauthorized" is accepted as an
+// alias for the relay chain's whitelist error acknowledgement)
 func (h *NetH) Ack(i int, p Pkt, ack string, ps ProofSpec, height uint64) bool {
+	h.begin(i)
 	ci := h.chains[i]
 	now := h.now()
 	bz, pterm := h.proof(ps, height)
-	h.learn(ack, "")
 	realAck := ack
 	if ack == "error:unauthorized" {
 		realAck = string(unauthAckBytes)
 	}
+	mk := h.mack(realAck)
+	h.learn(realAck, mk)
 	msg := packettypes.NewMsgAcknowledgement(p.real(), []byte(realAck), bz, clienttypes.NewHeight(0, height), ci.SenderAccount.GetAddress())
 	ok, evs, e := h.deliver(i, msg)
-	h.record(fmt.Sprintf("NChain %d %d (OAck %s %s %s %d)", i, now, p.coq(), hxS(ack), pterm, height), i,
-		StepDesc{Op: "ack", Pkt: &p, Ack: ack, Proof: &ps, Height: height, Err: e}, ok, evs)
+	h.record(fmt.Sprintf("NChain %d %d (OAck %s %s %s %d)", i, now, h.pcoq(p), hxS(mk), pterm, height), i,
+		StepDesc{Op: "ack", Pkt: &p, Ack: mk, Proof: &ps, Height: height, Err: e}, ok, evs)
 	return ok
 }
 
 func (h *NetH) Clean(i int, cp CPkt) bool {
+	h.begin(i)
 	ci := h.chains[i]
 	now := h.now()
 	msg := packettypes.NewMsgCleanPacket(cp.real(), ci.SenderAccount.GetAddress())
@@ -377,6 +476,7 @@ func (h *NetH) Clean(i int, cp CPkt) bool {
 }
 
 func (h *NetH) RecvClean(i int, cp CPkt, ps ProofSpec, height uint64) bool {
+	h.begin(i)
 	ci := h.chains[i]
 	now := h.now()
 	bz, pterm := h.proof(ps, height)
@@ -388,6 +488,7 @@ func (h *NetH) RecvClean(i int, cp CPkt, ps ProofSpec, height uint64) bool {
 }
 
 func (h *NetH) SetRules(i int, rules []string) bool {
+	h.begin(i)
 	ci := h.chains[i]
 	h.coord.UpdateTimeForChain(ci)
 	now := h.now()
